@@ -419,6 +419,9 @@ def native(seed=0, reduced=False):
         fam.append(dict(film=box(4, 2, center=centre), holes=[circle(0.4, center=centre)], terms=True, centre=centre, mel=0.45, smooth=0))
         fam.append(dict(film=ellipse(2.5, 1.5, center=centre), holes=[box(0.6, 0.5, center=(centre[0] - 0.8, centre[1])), circle(0.3, center=(centre[0] + 0.9, centre[1] + 0.2))], terms=False, centre=centre, mel=0.4, smooth=10))
         fam.append(dict(film=box(3, 3, center=centre), holes=[], terms=True, centre=centre, mel=0.5, smooth=5))
+    # a hole whose polygon carries mesh=False (e.g. a polygon that served as a terminal of another device before) is still a hole
+    hole_nm = tdgl.Polygon("slot", points=box(1.2, 0.5), mesh=False)
+    fam.append(dict(film=box(4, 2), holes=[hole_nm], terms=False, centre=(0.0, 0.0), mel=0.45, smooth=0))
     # the mesher's no-refinement path (max_edge_length <= 0): coarse mesh of an off-centre device
     fam.append(dict(film=box(4, 2, center=(7.5, -3.0), points=41), holes=[circle(0.4, center=(7.5, -3.0), points=21)], terms=False, centre=(7.5, -3.0), mel=0, smooth=0))
     # a device translated in place gets a new mesh; a copy made before (copies and Solutions share the Mesh object) keeps a mesh that still
@@ -446,7 +449,7 @@ def native(seed=0, reduced=False):
         n += 1
         cx, cy = g["centre"]
         film = tdgl.Polygon("film", points=g["film"])
-        holes = [tdgl.Polygon(f"h{i}", points=h) for i, h in enumerate(g["holes"])]
+        holes = [h if isinstance(h, tdgl.Polygon) else tdgl.Polygon(f"h{i}", points=h) for i, h in enumerate(g["holes"])]
         terms = None
         if g["terms"]:
             (x0, y0), (x1, y1) = film.bbox
